@@ -77,6 +77,14 @@ impl Num for BigDecimal {
                 // split into leading and trailing digits
                 let (lead, trail) = (&base_part[..loc], &base_part[loc + 1..]);
 
+                // a sign may only appear at the very start of the number: without this check
+                // ".-5" would hand "-5" to the integer parser and be accepted as -0.05
+                if trail.starts_with('+') || trail.starts_with('-') {
+                    return Err(ParseBigDecimalError::Other(String::from(
+                        "Unexpected sign after the decimal point",
+                    )));
+                }
+
                 digit_buffer.reserve(lead.len() + trail.len());
                 // copy all leading characters into 'digits' string
                 digit_buffer.push_str(lead);
